@@ -145,6 +145,11 @@ pub fn gen(prop: &str, seed: u64, index: u64, tier: Tier) -> Case {
             _ => None,
         })
         .collect();
+    let mut link_dirs = link_dirs;
+    if has_link {
+        // the link itself as the input: what it leads to is what must be scanned
+        link_dirs.push("lnk".to_string());
+    }
     if !link_dirs.is_empty() && crng.chance(1, 3) {
         inputs = vec![crng.pick(&link_dirs).clone()];
         recursive = !crng.chance(1, 4);
@@ -159,6 +164,25 @@ pub fn gen(prop: &str, seed: u64, index: u64, tier: Tier) -> Case {
                 warm.push(s.path.clone());
             }
         }
+        if warm.is_empty() && has_link {
+            // nothing hidden: the warm-up differs only in where `lnk` points
+            warm.push("-".into());
+        }
+    }
+    // C05: the cycle is closed by an edit after a successful build, and the run that must report
+    // it is a verify (the stored outputs still match: `after` prints nothing)
+    let mut closing: Option<(String, String)> = None;
+    if prop == "C05" && !swept && !cyclic && a.n() >= 2 && crng.chance(1, 3) {
+        // an edge j -> i where i already reaches j closes a cycle; a self-loop otherwise
+        let edges_now = a.edges();
+        let mut cands: Vec<(usize, usize)> = edges_now.iter().map(|(i, j)| (*j, *i)).collect();
+        for i in 0..a.n() {
+            cands.push((i, i));
+        }
+        let (from, to) = *crng.pick(&cands);
+        let sp = a.sources[from].path.clone();
+        let line = format!("TXTPP#after {}", gen::rel_path(&a.sources[from].dir, &a.sources[to].out));
+        closing = Some((sp, line));
     }
     let mode = if crng.chance(1, 4) {
         ModeS::Needed
@@ -176,6 +200,25 @@ pub fn gen(prop: &str, seed: u64, index: u64, tier: Tier) -> Case {
     params.insert("swept".to_string(), format!("{swept}"));
     if !warm.is_empty() {
         params.insert("warmup_without".to_string(), serde_json::to_string(&warm).unwrap());
+    }
+    let mut project = project;
+    let mut cfg = cfg;
+    if let Some((sp, line)) = closing {
+        if let Some(d) = project.file(&sp).cloned() {
+            let t = d.lossy();
+            let eol = crate::spec::line_ending(&t);
+            let mut t2 = t.clone();
+            if !t2.is_empty() && !t2.ends_with('\n') {
+                t2.push_str(eol);
+            }
+            // a guard line first: the new line must not continue a directive above it
+            t2.push_str(&format!("~{eol}{line}{eol}"));
+            // the build that precedes the edit sees the file without that last line
+            project.set_file(&sp, B(t2.into_bytes()));
+            params.insert("closing_edit_path".to_string(), sp);
+            params.insert("closing_edit_line".to_string(), line.clone());
+            cfg.mode = ModeS::Verify;
+        }
     }
     Case {
         property: prop.to_string(),
@@ -243,6 +286,14 @@ pub fn run(case: &Case, ctx: &mut Ctx) -> CaseOutcome {
                 v.add_file(&a.sources[*i].out, B::s("written by hand before the source existed\n"));
             }
         }
+        // a directory link points somewhere else during the warm-up
+        for e in v.entries.iter_mut() {
+            if let Entry::Symlink { path, target } = e {
+                if path == "lnk" && target == "sub" {
+                    *target = "lib".into();
+                }
+            }
+        }
         tree::plant(&env.root, &v);
         env.clear_run_vlog();
         let mut ws = sched.clone();
@@ -267,7 +318,48 @@ pub fn run(case: &Case, ctx: &mut Ctx) -> CaseOutcome {
         .unwrap_or(0);
     let mut drng = crate::rng::Rng::new(dirty_seed);
     let per_mille = if prop == "C02" { 1000 } else { 500 };
-    let n_dirty = plant_dirty(env, &mut drng, &a, &r, DIRTY_INVALID_UTF8, per_mille);
+    let mut n_dirty = 0;
+    let closing_before: Option<(String, String)> = match (case.params.get("closing_edit_path"), case.params.get("closing_edit_line")) {
+        (Some(path), Some(line)) => case.project.file(path).and_then(|d| {
+            let t = d.lossy();
+            // the last occurrence of the line, with its line ending, taken out again
+            t.rfind(line.as_str()).map(|pos| {
+                let end = t[pos..].find('\n').map(|k| pos + k + 1).unwrap_or(t.len());
+                (path.clone(), format!("{}{}", &t[..pos], &t[end..]))
+            })
+        }),
+        _ => None,
+    };
+    let mut prebuild_ok = true;
+    if let Some((path, before)) = &closing_before {
+        // history: the project without the closing line is built (everything is up to date),
+        // then the line is added, then the run under test (a verify) starts
+        let _ = std::fs::write(env.root.join(tree::osp(path)), before.as_bytes());
+        env.clear_run_vlog();
+        let mut bcfg = cfg.clone();
+        bcfg.mode = ModeS::Build;
+        let mut bs = sched.clone();
+        bs.script = None;
+        bs.strict = false;
+        let pre = env.run(&bcfg, &bs, false);
+        if pre.poisoned {
+            out.poisoned = true;
+            out.recorded = Some(case.clone());
+            return out;
+        }
+        ctx.stats.count(if pre.verdict.is_ok() { "c05.closing_edit.prebuild_ok" } else { "c05.closing_edit.prebuild_failed" });
+        prebuild_ok = pre.verdict.is_ok();
+        if let Some(d) = case.project.file(path) {
+            let _ = std::fs::write(env.root.join(tree::osp(path)), &d.0);
+        }
+    } else {
+        n_dirty = plant_dirty(env, &mut drng, &a, &r, DIRTY_INVALID_UTF8, per_mille);
+    }
+    if !prebuild_ok {
+        // nothing is up to date: the verify fails for other reasons, nothing to learn
+        out.recorded = Some(case.clone());
+        return out;
+    }
     env.clear_run_vlog();
     let sim = env.run(cfg, sched, false);
     ctx.stats.sim(a.shape_hash(), sched, &sim);
@@ -418,7 +510,7 @@ pub fn run(case: &Case, ctx: &mut Ctx) -> CaseOutcome {
                             bad.iter().map(|i| a.sources[*i].path.clone()).collect::<Vec<_>>()
                         ),
                     );
-                } else if sim.verdict.is_err() && ref_ok {
+                } else if sim.verdict.is_err() && ref_ok && cfg.mode != ModeS::Verify {
                     for i in &good {
                         if let Some(m) = compare_generated(&a, *i, &snap, &r) {
                             out.violate("C05", "acyclic-part-not-built", m);
